@@ -364,6 +364,21 @@ def nakSpline (xs : List Rat) (rows : List (List Rat)) (dim : Nat) (xnew : List 
       if cols.any (fun col => (nakMoments sx col).isNone) then .error .solver
       else .ok (xnew.map (fun x => cols.map (fun col => nakAt sx col ((nakMoments sx col).getD []) x)))
 
+/-- `interpolate_with_derivative(x, y, x_new, kind=…, dx=dx)` for any interpolator `f` (the function of `x_new`
+the registered interpolator returns): values `f(x_new)`, derivative `(f(x_new + dx) - f(x_new - dx)) / (2 dx)`,
+evaluated in this order -/
+def interpDeriv (f : List Rat → Except Err (List (List Rat))) (xnew : List Rat) (dx : Rat) :
+    Except Err (List (List Rat) × List (List Rat)) :=
+  match f xnew with
+  | .error e => .error e
+  | .ok v =>
+    match f (xnew.map (· + dx)) with
+    | .error e => .error e
+    | .ok hi =>
+      match f (xnew.map (· - dx)) with
+      | .error e => .error e
+      | .ok lo => .ok (v, centralDiff hi lo dx)
+
 /-! ## `midgard.math.nputil`: `norm`, `unit_vector`, `take` along the last axis -/
 
 /-- `norm(v) ** 2` for one vector (the square root itself is a parameter of `unitVector`) -/
